@@ -631,6 +631,13 @@ func init() {
 		b := args[0].(BV)
 		return mkInt(b.W, m.concretize(b, "harness")), true
 	})
+	reg(zzPath+".CaseFixed", func(m *Machine, _ *frame, _ *ssa.Function, args []Value) (Value, bool) {
+		r := args[0].(BV)
+		if r.T == nil {
+			return BoolV{C: evalPred("ToLowerFixed", r.C) && evalPred("ToUpperFixed", r.C)}, true
+		}
+		return m.fromTerm(m.tc.And(m.tc.Pred("ToLowerFixed", r.T), m.tc.Pred("ToUpperFixed", r.T))), true
+	})
 	reg(zzPath+".IsPrint", func(m *Machine, _ *frame, _ *ssa.Function, args []Value) (Value, bool) {
 		return m.runePred("IsPrint", args[0].(BV)), true
 	})
